@@ -140,7 +140,21 @@ func checkC06(c AxisCase) (bool, *Violation) {
 				ctl, name = neg, *a.CCNeg
 			}
 			if !rx.CCSeen[ctl] {
-				if sh.PreFlip.Sign() != 0 && E.Cmp(big.NewRat(1, 1)) > 0 {
+				// what the receiver is assumed to hold before anything is sent: the value at physical rest
+				// (0 on a signed / centred axis; full scale on one side for a plain unsigned axis)
+				restSide, restE := 0, big.NewRat(0, 1)
+				if !sh.CanNeg {
+					restSide, restE = -1, big.NewRat(127, 1)
+					if flip {
+						restSide = 1
+					}
+				}
+				differs := E.Cmp(big.NewRat(1, 1)) > 0
+				if side == restSide {
+					d := new(big.Rat).Sub(E, restE)
+					differs = d.Abs(d).Cmp(big.NewRat(1, 1)) > 0
+				}
+				if sh.PreFlip.Sign() != 0 && differs {
 					return true, violation("C06", "never-transmitted", "cc-bidi", "%s: nothing transmitted for CC %d although the exact value is %.3f", where(), name, ratF(E))
 				}
 				break
